@@ -2,7 +2,7 @@
   CRProofs.XsdEnum — shared definitions for the enumeration theorems of C03, and the large `decide`s over the traffic-sign
   tables (kept out of CRProps/C03.lean so that lake builds them in parallel and caches them).
 -/
-import CRProofs.Xsd
+import CRModel.XsdModel
 import Gen.XsdScenario
 import Gen.PyEnums
 
